@@ -43,6 +43,7 @@ type c05Operand struct {
 	kind string   // q | d | s | l (long-float: big.Float of precision prec)
 	bits uint64   // for single and double floats
 	prec uint     // for long-floats
+	form string   // representation of an integer value: "" canonical | "B" held in a *Bignum | "R" held in a *Ratio with denominator 1
 }
 
 func (o c05Operand) wire() string {
@@ -56,6 +57,12 @@ func (o c05Operand) wire() string {
 		return fmt.Sprintf("l:%d:%s", o.prec, o.rat.RatString())
 	}
 	if o.rat.IsInt() {
+		switch o.form {
+		case "B":
+			return "b:" + o.rat.Num().String()
+		case "R":
+			return "r:" + o.rat.Num().String()
+		}
 		return "q:" + o.rat.Num().String()
 	}
 	return "q:" + o.rat.Num().String() + "/" + o.rat.Denom().String()
@@ -81,7 +88,22 @@ func (o c05Operand) rep() string {
 	case "l":
 		return "lng"
 	}
+	if o.rat.IsInt() {
+		switch o.form {
+		case "B":
+			if o.rat.Num().IsInt64() {
+				return "sbig" // a bignum object holding a value of the fixnum range, e.g. (coerce 5 'bignum)
+			}
+		case "R":
+			return "irat" // a ratio object with denominator 1, e.g. (coerce 5 'ratio)
+		}
+	}
 	return c05Rep(o.rat)
+}
+
+// asForm returns the integer operand in another representation.
+func (o c05Operand) asForm(form string) c05Operand {
+	return c05Operand{rat: o.rat, kind: "q", form: form}
 }
 
 func (o c05Operand) class() string { return o.rep() + o.sign() }
@@ -108,6 +130,12 @@ func (o c05Operand) object() slip.Object {
 		return (*slip.LongFloat)(new(big.Float).SetPrec(o.prec).SetRat(o.rat))
 	}
 	if o.rat.IsInt() {
+		switch o.form {
+		case "B":
+			return (*slip.Bignum)(new(big.Int).Set(o.rat.Num()))
+		case "R":
+			return (*slip.Ratio)(new(big.Rat).Set(o.rat))
+		}
 		if o.rat.Num().IsInt64() {
 			return slip.Fixnum(o.rat.Num().Int64())
 		}
@@ -408,7 +436,14 @@ func (cs c05Case) lisp() string {
 		case "l":
 			parts = append(parts, fmt.Sprintf("#l<%d:%s>", a.prec, a.rat.RatString()))
 		default:
-			parts = append(parts, a.rat.RatString())
+			switch {
+			case a.form == "B" && a.rat.IsInt():
+				parts = append(parts, "(coerce "+a.rat.RatString()+" 'bignum)")
+			case a.form == "R" && a.rat.IsInt():
+				parts = append(parts, "(coerce "+a.rat.RatString()+" 'ratio)")
+			default:
+				parts = append(parts, a.rat.RatString())
+			}
 		}
 	}
 	return strings.Join(parts, " ") + ")"
@@ -601,7 +636,8 @@ func c05Signature(cs c05Case, model string, aspect string) string {
 
 type c05Avoid struct {
 	bigRatio  map[string]bool // op -> a bignum meets a proper ratio in + - * / (incf, decf use +)
-	subNoDemo bool            // (- …) computed in the bignum branch with a result in fixnum range
+	subNoDemo bool            // (- a b …) computed in the bignum branch with a result in fixnum range
+	negNoDemo bool            // (- a) of a bignum whose negation fits a fixnum
 	floorNeg  bool            // (floor fixnum negative-fixnum)
 	exptNeg   bool            // (expt rational negative-integer)
 }
@@ -619,6 +655,7 @@ func c05AvoidRules(f *lib.Findings) c05Avoid {
 	if f.Listed("C05", "op=decf in=big,rat ") || f.Listed("C05", "op=decf in=fix,rat ") {
 		av.bigRatio["decf"] = true
 	}
+	av.negNoDemo = false // repaired (repo-patches/C05/0023)
 	av.subNoDemo = f.Listed("C05", "op=- in=big ") || f.Listed("C05", "op=- in=big,fix ")
 	av.floorNeg = f.Listed("C05", "op=floor in=fix")
 	for _, fd := range f.Findings {
@@ -639,25 +676,26 @@ func (av c05Avoid) listed(cs c05Case) bool {
 		if len(cs.args) == 0 {
 			return false
 		}
-		// replay the left fold on exact values, tracking the representation of the accumulator
+		// replay the left fold on exact values, tracking the Go type of the accumulator object
+		// (fix | big | rat). The operators bring every operand to canonical form first, so a
+		// non-canonical operand (a small value in a bignum, n/1 in a ratio) counts by its value.
 		acc := new(big.Rat).Set(cs.args[0].rat)
-		accBig := c05IsBigInt(acc) // accumulator is held in a bignum object
+		accRep := c05Rep(acc)
 		if name == "-" && len(cs.args) == 1 {
 			acc.Neg(acc)
-			return av.subNoDemo && accBig && !c05IsBigInt(acc)
+			return av.negNoDemo && accRep == "big" && !c05IsBigInt(acc)
 		}
 		if name == "/" && len(cs.args) == 1 {
 			return false
 		}
 		for _, b := range cs.args[1:] {
-			operand := b.rat
+			bRep := c05Rep(b.rat)
 			if name == "decf" {
-				operand = new(big.Rat).Neg(b.rat) // decf negates the delta, then adds
+				bRep = c05Rep(new(big.Rat).Neg(b.rat)) // decf negates the delta, then adds
 			}
-			if av.bigRatio[name] && ((c05IsBigInt(acc) && !operand.IsInt()) || (!acc.IsInt() && c05IsBigInt(operand))) {
+			if av.bigRatio[name] && ((accRep == "big" && bRep == "rat") || (accRep == "rat" && bRep == "big")) {
 				return true
 			}
-			bothInt := acc.IsInt() && b.rat.IsInt()
 			switch name {
 			case "+", "incf":
 				acc.Add(acc, b.rat)
@@ -671,14 +709,15 @@ func (av c05Avoid) listed(cs c05Case) bool {
 				}
 				acc.Quo(acc, b.rat)
 			}
-			if name == "-" {
-				// no demotion in the bignum branch of -
-				accBig = bothInt && (accBig || c05IsBigInt(b.rat) || c05IsBigInt(acc))
+			if name == "-" && (accRep == "big" || bRep == "big") && accRep != "rat" && bRep != "rat" {
+				accRep = "big" // no demotion in the bignum branch of -
+			} else {
+				accRep = c05Rep(acc) // every other branch returns the canonical representation
 			}
 		}
-		return name == "-" && av.subNoDemo && accBig && !c05IsBigInt(acc)
+		return name == "-" && av.subNoDemo && accRep == "big" && !c05IsBigInt(acc)
 	case "floor":
-		return av.floorNeg && len(cs.args) == 2 && cs.args[0].rep() == "fix" && cs.args[1].rep() == "fix" && cs.args[1].rat.Sign() < 0
+		return av.floorNeg && len(cs.args) == 2 && c05Rep(cs.args[0].rat) == "fix" && c05Rep(cs.args[1].rat) == "fix" && cs.args[1].rat.Sign() < 0
 	case "expt":
 		return av.exptNeg && len(cs.args) == 2 && cs.args[1].rat.Sign() < 0
 	}
@@ -706,12 +745,12 @@ func c05ParseRequest(req string) (c05Case, bool) {
 	for _, a := range w[2:] {
 		kind, v, _ := strings.Cut(a, ":")
 		switch kind {
-		case "q":
+		case "q", "b", "r":
 			r, ok := new(big.Rat).SetString(v)
 			if !ok {
 				return cs, false
 			}
-			cs.args = append(cs.args, c05Operand{rat: r, kind: "q"})
+			cs.args = append(cs.args, c05Operand{rat: r, kind: "q", form: map[string]string{"q": "", "b": "B", "r": "R"}[kind]})
 		case "d":
 			var bits uint64
 			_, _ = fmt.Sscanf(v, "%x", &bits)
@@ -762,6 +801,19 @@ func c05Disagree(cs c05Case, impl, model string) string {
 		return ""
 	}
 	aspect := c05Aspect(impl, model)
+	if strings.HasPrefix(aspect, "wrong-type:") {
+		switch cs.op.name {
+		case "max", "min", "rational", "numerator":
+			// these select one of their operands: handing back a non-canonical operand as it is (same
+			// object type, same value) is not a computed result in non-canonical form
+			iw := strings.Fields(impl)
+			for _, a := range cs.args {
+				if len(iw) == 2 && a.form != "" && c05Show(a.object()) == iw[1] {
+					return ""
+				}
+			}
+		}
+	}
 	if strings.HasPrefix(aspect, "float-result:") && cs.hasFloat() && cs.op.domain == "cmp1" {
 		// min/max may return the float operand itself when it has the same exact value
 		iw, mw := strings.Fields(impl), strings.Fields(model)
@@ -975,13 +1027,96 @@ func runC05(c *lib.Ctx) {
 			}
 		}
 	}
+	// --- single-cause sweep, representation cells: every legal REPRESENTATION of a value that Lisp
+	// code can produce, not only the canonical one: a value of the fixnum range held in a bignum
+	// ((coerce 5 'bignum), or the result of a subtraction that is not demoted), an integer held in a
+	// ratio with denominator 1 ((coerce 5 'ratio)). Every operator, singles, and pairs with each other
+	// and with canonical partners (integers around the word boundary, ratios, for the comparisons also
+	// integer-valued and neighbouring floats), in both argument orders.
+	var nonCanon []c05Operand
+	for _, v := range []string{"0", "1", "-1", "2", "5", "-7", "2147483648", "4611686018427387904", "9223372036854775807", "-9223372036854775808"} {
+		nonCanon = append(nonCanon, c05Int(v).asForm("B"))
+	}
+	for _, v := range []string{"0", "1", "-1", "5", "-7", "9223372036854775807", "-9223372036854775808", "18446744073709551616"} {
+		nonCanon = append(nonCanon, c05Int(v).asForm("R"))
+	}
+	partners := []c05Operand{}
+	for _, v := range []string{"0", "1", "-1", "2", "3", "5", "7", "-7", "64", "2147483648", "4611686018427387904", "9223372036854775807",
+		"-9223372036854775808", "9223372036854775808", "-9223372036854775809", "18446744073709551616"} {
+		partners = append(partners, c05Int(v))
+	}
+	partnerRatios := []c05Operand{c05RatioS("1", "2"), c05RatioS("-3", "2"), c05RatioS("7", "3"), c05RatioS("18446744073709551617", "3")}
+	partnerFloats := []c05Operand{c05Double(5), c05Single(5), c05Double(4.5), c05Single(-7), c05Double(9223372036854775808.0), c05Double(-9223372036854775808.0),
+		c05Single(9223372036854775808.0), c05Long(big.NewInt(5), 64), c05Double(0), c05Double(1)}
+	nRepCells := 0
+	for _, op := range c05Ops {
+		intOnly := false
+		switch op.domain {
+		case "int", "nat", "ash", "bitp", "expt":
+			intOnly = true
+		}
+		// a ratio object n/1 is of type ratio in slip: the integer-only functions reject it (type-error),
+		// that is slip's type system and not a wrong result, so it is not offered to them
+		pool := nonCanon
+		if op.domain == "int" || op.domain == "bitp" {
+			pool = nil
+			for _, a := range nonCanon {
+				if a.form != "R" {
+					pool = append(pool, a)
+				}
+			}
+		}
+		if op.minArg <= 1 && (op.maxArg == -1 || op.maxArg >= 1) {
+			for _, a := range pool {
+				if op.domain == "nat" && a.rat.Sign() < 0 {
+					continue
+				}
+				cases = append(cases, c05Case{op, []c05Operand{a}, true})
+				nRepCells++
+			}
+		}
+		if !(op.maxArg == -1 || op.maxArg >= 2) {
+			continue
+		}
+		others := append(append([]c05Operand{}, pool...), partners...)
+		if !intOnly {
+			others = append(others, partnerRatios...)
+		}
+		if op.isCmp() {
+			others = append(others, partnerFloats...)
+		}
+		// shift counts, exponents and bit indexes stay small (the result has 2^|k| digits otherwise)
+		smallEnough := func(cs c05Case) bool {
+			k := -1
+			switch op.domain {
+			case "ash", "expt":
+				k = 1
+			case "bitp":
+				k = 0
+			}
+			return k < 0 || cs.args[k].rat.Num().BitLen() <= 8
+		}
+		for _, a := range pool {
+			for _, b := range others {
+				if cs := (c05Case{op, []c05Operand{a, b}, true}); smallEnough(cs) {
+					cases = append(cases, cs)
+					nRepCells++
+				}
+				if cs := (c05Case{op, []c05Operand{b, a}, true}); b.form == "" && smallEnough(cs) {
+					cases = append(cases, cs)
+					nRepCells++
+				}
+			}
+		}
+	}
 	nSweep := len(cases)
 
 	// --- composite, seed independent: all triples over a small pool for the n-ary operators
 	half, mhalf := c05RatioS("1", "2"), c05RatioS("-3", "2")
 	tripleInt := []c05Operand{c05Int("0"), c05Int("1"), c05Int("-1"), c05Int("2"), c05Int("6"), c05Int("4611686018427387904"),
 		c05Int("9223372036854775807"), c05Int("-9223372036854775808"), c05Int("9223372036854775808")}
-	tripleRat := append(append([]c05Operand{}, tripleInt...), half, mhalf)
+	tripleInt = append(tripleInt, c05Int("5").asForm("B"), c05Int("-9223372036854775808").asForm("B"))
+	tripleRat := append(append([]c05Operand{}, tripleInt...), half, mhalf, c05Int("1").asForm("R"))
 	tripleCmp := append(append([]c05Operand{}, tripleRat...), c05Double(0.5), c05Double(9223372036854775808.0), c05Single(1))
 	avoided := 0
 	for _, op := range c05Ops {
@@ -1113,6 +1248,16 @@ func runC05(c *lib.Ctx) {
 				args = append(args, randOperand(op.domain))
 			}
 		}
+		for j := range args {
+			// 8 %: the same value in a non-canonical representation
+			if args[j].kind == "q" && args[j].rat.IsInt() && c.Rng.Chance(8) {
+				form := []string{"B", "R"}[c.Rng.Intn(2)]
+				if op.domain == "int" || op.domain == "bitp" {
+					form = "B" // integer-only functions reject a ratio object
+				}
+				args[j] = args[j].asForm(form)
+			}
+		}
 		return c05Case{op, args, false}
 	}
 	// --- run model and implementation, batch by batch (bounds memory in the thorough tier)
@@ -1211,6 +1356,7 @@ func runC05(c *lib.Ctx) {
 	c.Ev.Coverage["sweep_cases"] = nSweep
 	c.Ev.Coverage["sweep_float_coupled_cases"] = nCoupled
 	c.Ev.Coverage["sweep_width_class_ratio_cases"] = nRatioCells
+	c.Ev.Coverage["sweep_representation_cases"] = nRepCells
 	c.Ev.Coverage["triple_cases"] = nTriples
 	c.Ev.Coverage["random_cases"] = nRandom
 	c.Ev.Coverage["composite_cases_avoided_listed_construct"] = avoided
